@@ -23,6 +23,7 @@ CONSTANTS Addr,        \* wallets (keys); a request signed `by` k carries a vali
           Iss, Rcv,    \* Trx -> Addr
           HasData,     \* Trx -> BOOLEAN: the transaction as issued is a contract
           HasSpice,    \* Trx -> BOOLEAN: the transaction transfers spice
+          Oversize,    \* Trx -> BOOLEAN: the data is longer than the node accepts for a contract (data_size_bytes)
           MaxChal      \* challenge identities are 1..MaxChal
 
 NoChal == [id |-> 0, fresh |-> FALSE]
@@ -43,7 +44,8 @@ Unthrottle(s, as) == [s EXCEPT !.throttled = @ \ as]
 ProposeOut(s, t, by, form) ==
     IF by # Iss[t] THEN [res |-> "verification", s |-> s]
     ELSE IF IsContract(t, form)
-         THEN IF t \in s.awaiting THEN [res |-> "processing", s |-> s]
+         THEN IF Oversize[t] THEN [res |-> "processing", s |-> s]     \* refused: neither parked nor sealed
+              ELSE IF t \in s.awaiting THEN [res |-> "processing", s |-> s]
               ELSE [res |-> "ok", s |-> [s EXCEPT !.awaiting = @ \cup {t}]]
          ELSE IF t \in s.sealed \/ ~HasSpice[t]    \* the ledger refuses a duplicate and a transaction with neither data nor spice
               THEN [res |-> "processing", s |-> s]
